@@ -80,7 +80,6 @@ structure RawSearch where
   inp : SearchIn
   rr : Option (Option (Int × Int)) := none     -- observed randrange arguments (`some none` = not called)
   raised : Option String := none
-  sends : Array RawMsg := #[]
 
 inductive Ctx where | none | search | alive | bye
 
@@ -90,6 +89,7 @@ structure St where
   cls : Array Node := #[]
   dev : Array Node := #[]
   searches : Array RawSearch := #[]
+  resps : Array RawMsg := #[]          -- every datagram on the response socket, in send order
   ann : Option AnnIn := none
   alives : Array RawMsg := #[]
   byes : Array RawMsg := #[]
@@ -131,9 +131,7 @@ def step (st : St) (toks : List String) : St :=
   | ["raise", e] =>
     { st with searches := st.searches.modify (st.searches.size - 1) fun s => { s with raised := some e } }
   | ["sent", time, dest, pkt] =>
-    { st with searches := st.searches.modify (st.searches.size - 1) fun s =>
-                { s with sends := s.sends.push { time := time.toInt!, dest := str dest, packet := str pkt } },
-              ctx := .search }
+    { st with resps := st.resps.push { time := time.toInt!, dest := str dest, packet := str pkt }, ctx := .search }
   | ["ann", start, upto, stopped] =>
     { st with ann := some { start := start.toInt!, upto := upto.toInt!, stopped := stopped = "1" } }
   | ["alive", time, dest, pkt] =>
@@ -143,7 +141,7 @@ def step (st : St) (toks : List String) : St :=
   | ["heard", acc, udn, dst, loc, kind] =>
     let h : Heard := ⟨acc = "T", str udn, str dst, str loc, kind.toNat!⟩
     match st.ctx with
-    | .search => { st with searches := st.searches.modify (st.searches.size - 1) fun s => { s with sends := setHeard s.sends h } }
+    | .search => { st with resps := setHeard st.resps h }
     | .alive => { st with alives := setHeard st.alives h }
     | .bye => { st with byes := setHeard st.byes h }
     | .none => { st with bad := st.bad ++ ["heard without message"] }
@@ -185,9 +183,14 @@ def finish (st : St) : Bool × Bool × List String :=
         | some e, some _ => [s!"{what}: impl raised {e}, model does not"]
         | none, none => [s!"{what}: model raises, impl does not"]
         | _, _ => []
-      let r3 := if rs.raised.isSome then []
-                else cmpMsgs what rs.sends.toList (ms.sends.map fun m => (m, responsePacket cfg ⟨m.st, m.usn⟩))
-      r1 ++ r2 ++ r3
+      r1 ++ r2
+    -- the response socket, requester by requester (several searches may share one), in time order
+    let reqs := (ins.map (·.requester)).eraseDups
+    let byTime (l : List ObsMsg) : List ObsMsg := l.mergeSort fun a b => decide (a.time ≤ b.time)
+    let n2b := (reqs.zipIdx.flatMap fun (r, idx) =>
+      cmpMsgs s!"requester{idx}" (st.resps.toList.filter fun m => m.dest == r)
+        ((byTime (mcase.responses.filter fun m => m.dest == r)).map fun m => (m, responsePacket cfg ⟨m.st, m.usn⟩)))
+      ++ (if st.resps.toList.all (fun m => reqs.contains m.dest) then [] else ["a datagram went to an address nobody searched from"])
     let n3 := cmpMsgs "alive" st.alives.toList (mcase.alives.map fun m => (m, notifyPacket cfg ntsAlive ⟨m.st, m.usn⟩))
     let n4 := cmpMsgs "bye" st.byes.toList (mcase.byebyes.map fun m => (m, notifyPacket cfg ntsByebye ⟨m.st, m.usn⟩))
     -- the event-loop state machine over the same history (receptions at their observed times)
@@ -195,31 +198,43 @@ def finish (st : St) : Bool × Bool × List String :=
         (acc.1 ++ [Ev.advance (rs.inp.time - acc.2).toNat, Ev.recv rs.inp.requester rs.inp.req rs.inp.sel], rs.inp.time))
       (([] : List Ev), (0 : Int))
     let loopS := runLoop k dev {} (evs ++ [Ev.advance (k.mxCap * 1000)])
-    let n5 := (st.searches.toList.zipIdx.filterMap fun (rs, idx) =>
-      let mine := (loopS.log.filter fun o => o.dest == rs.inp.requester).map fun o => (o.time, o.msg.st, o.msg.usn)
-      let impl := rs.sends.toList.map fun m => let o := toObs m; (o.time, o.st, o.usn)
-      let raisedM := loopS.raisedAt.contains rs.inp.time
-      if rs.raised.isSome then (if raisedM then none else some s!"loop search{idx}: impl raised, loop model did not")
-      else if mine == impl then none
-      else some s!"loop search{idx}: loop model sends {mine.length} datagram(s) at {repr (mine.map (·.1))}, impl {impl.length} at {repr (impl.map (·.1))}").take 2
+    let n5 := ((reqs.zipIdx.filterMap fun (r, idx) =>
+      let mine := ((loopS.log.filter fun o => o.dest == r).mergeSort fun a b => decide (a.time ≤ b.time)).map
+        fun o => (o.time, o.msg.st, o.msg.usn)
+      let impl := (st.resps.toList.filter fun m => m.dest == r).map fun m => let o := toObs m; (o.time, o.st, o.usn)
+      if mine == impl then none
+      else some s!"loop requester{idx}: loop model sends {mine.length} datagram(s) at {repr (mine.map (·.1))}, impl {impl.length} at {repr (impl.map (·.1))}")
+      ++ (st.searches.toList.zipIdx.filterMap fun (rs, idx) =>
+        if rs.raised.isSome && !(loopS.raisedAt.contains rs.inp.time) then some s!"loop search{idx}: impl raised, loop model did not"
+        else none)).take 2
     let n6 := if loopS.timers.isEmpty then [] else ["loop: timers left after the flush"]
-    let corrNotes := st.bad ++ n1 ++ n2 ++ n3 ++ n4 ++ n5 ++ n6
+    let corrNotes := st.bad ++ n1 ++ n2 ++ n2b ++ n3 ++ n4 ++ n5 ++ n6
     -- judge, on the implementation's observations only
     let icase : CaseObs :=
       { tree := dev, alwaysRoot := k.alwaysRoot, location := cfg.location, target := target,
         searches := st.searches.toList.map fun rs =>
-          { time := rs.inp.time, requester := rs.inp.requester, req := rs.inp.req, raised := rs.raised.isSome,
-            sends := rs.sends.toList.map toObs },
+          { time := rs.inp.time, requester := rs.inp.requester, req := rs.inp.req, raised := rs.raised.isSome },
+        responses := st.resps.toList.map toObs,
         alives := st.alives.toList.map toObs,
         stopTime := match st.ann with | some a => if a.stopped then some a.upto else none | none => none,
         annUpto := st.ann.map (·.upto),
+        annStart := st.ann.map (·.start),
+        maxAgeMs := maxAgeOf cfg.cacheControl,
         byebyes := st.byes.toList.map toObs }
     let wf := wfTree dev
-    let jn1 := (icase.searches.zipIdx.filterMap fun (s, idx) =>
-      if okSearch icase s then none
-      else
-        let (exp, _) := expected icase.tree icase.alwaysRoot (s.req.st.getD [])
-        some s!"judge search{idx} st={show' (s.req.st.getD [])} mx={show' (s.req.mx.getD "!".toList)} raised={s.raised} expected=[{", ".intercalate (exp.map fun e => show' e.st ++ "|" ++ show' e.usn)}] got=[{", ".intercalate (s.sends.map fun m => s!"{show' m.st}|{show' m.usn}@{m.time - s.time}ms>{show' m.dest} heard={showHeard m.heard}")}]").take 2
+    let showM (m : ObsMsg) : String := s!"{show' m.st}|{show' m.usn}@{m.time}ms heard={showHeard m.heard}"
+    let jn1 := if okResponses icase then [] else
+      ((icase.searches.zipIdx.filterMap fun (s, idx) =>
+          if isMSearch s.req && s.raised then some s!"judge search{idx}: the handler raised" else none)
+       ++ (icase.responses.filterMap fun m =>
+          if icase.searches.any (fun s => s.requester == m.dest && !isMSearch s.req)
+             || (m.startLine == okLine && m.nts.isEmpty && m.location == icase.location && icase.searches.any fun s => accounts icase s m)
+          then none else some s!"judge: datagram to {show' m.dest} accounted for by no search: {showM m}")
+       ++ (reqs.filterMap fun r =>
+          if icase.searches.any (fun s => s.requester == r && !isMSearch s.req) || okRequester icase r then none
+          else
+            let ss := icase.searches.filter (·.requester == r)
+            some s!"judge requester {show' r}: searches [{", ".intercalate (ss.map fun s => s!"st={show' (s.req.st.getD [])} mx={show' (s.req.mx.getD "!".toList)} at {s.time}ms")}] prescribe [{", ".intercalate (ss.flatMap fun s => (expOf icase s).1.map fun e => show' e.st ++ "|" ++ show' e.usn)}] got [{", ".intercalate ((icase.responses.filter (·.dest == r)).map showM)}]")).take 2
     let jn2 := if okAlives icase then [] else [s!"judge alives: [{", ".intercalate (icase.alives.map fun m => s!"{show' m.st}|{show' m.usn}@{m.time} heard={showHeard m.heard}")}]"]
     let jn3 := if okByebyes icase then [] else [s!"judge byebyes: [{", ".intercalate (icase.byebyes.map fun m => s!"{show' m.st}|{show' m.usn}@{m.time} heard={showHeard m.heard}")}]"]
     let jn0 := if wf then [] else ["tree outside the property's domain (wfTree = false)"]
